@@ -294,3 +294,46 @@ func ruleClientBlock(p *Prog, r *Out) {
 	}
 	_ = token.NoPos
 }
+
+func init() {
+	register(&Rule{
+		Name: "dial-bounded", Props: []string{"C12", "C17"}, Engine: "AST", Floor: 3,
+		Doc: "a connection the client dials carries a deadline of a positive constant from before the TLS handshake until the HTTP/2 handshake has succeeded, and loses it then: a server that accepts and says nothing cannot hold the dialing goroutine (and the Client lock its caller holds)",
+		Run: func(p *Prog, r *Out) {
+			td, dd := p.decl("(*Dialer).tryDial"), p.decl("(*Dialer).Dial")
+			if td == nil || dd == nil {
+				r.undecided("Dial", "?", "(*Dialer).tryDial / Dial no longer resolve")
+				return
+			}
+			r.fn("(*Dialer).tryDial", "(*Dialer).Dial")
+			setAt, tlsAt := token.NoPos, token.NoPos
+			ast.Inspect(td.Body, func(n ast.Node) bool {
+				switch x := n.(type) {
+				case *ast.AssignStmt:
+					if squash(p.text(x)) == "_=c.SetDeadline(time.Now().Add(handshakeTimeout))" {
+						setAt = x.Pos()
+					}
+				case *ast.CallExpr:
+					if strings.HasSuffix(p.calleeOf(x), ".Handshake") && strings.Contains(p.text(x.Fun), "tlsConn") && !tlsAt.IsValid() {
+						tlsAt = x.Pos()
+					}
+				}
+				return true
+			})
+			r.check(setAt.IsValid() && tlsAt.IsValid() && setAt < tlsAt, "a new connection carries a deadline until its handshake is done", p.pos(td.Pos()), "c.SetDeadline(now + handshakeTimeout) before the TLS handshake", "the connection no longer gets a deadline before the TLS handshake: a server that accepts and then says nothing holds the dial for ever")
+			g, ok := p.pkgConst("handshakeTimeout")
+			r.check(ok && g > 0 && g <= int64(120*1e9), "the handshake deadline is a positive constant", p.pos(td.Pos()), "0 < handshakeTimeout <= 2 minutes", "handshakeTimeout is no longer a positive constant of at most two minutes")
+			// Dial clears it only after a successful handshake
+			hsAt, clrOK := token.NoPos, false
+			for _, s := range dd.Body.List {
+				if squash(p.text(s)) == "err=nc.Handshake()" {
+					hsAt = s.Pos()
+				}
+				if ifs, ok := s.(*ast.IfStmt); ok && squash(p.text(ifs.Cond)) == "err==nil" && hsAt.IsValid() && ifs.Pos() > hsAt && len(ifs.Body.List) == 1 && squash(p.text(ifs.Body.List[0])) == "err=c.SetDeadline(time.Time{})" {
+					clrOK = true
+				}
+			}
+			r.check(clrOK, "the deadline comes off after the handshake and not before", p.pos(dd.Pos()), "err = nc.Handshake(); if err == nil { err = c.SetDeadline(time.Time{}) }", "Dial no longer removes the handshake deadline exactly once the handshake has succeeded: either the connection dies handshakeTimeout after it was dialed, or the wait for SETTINGS is unbounded again")
+		},
+	})
+}
